@@ -140,3 +140,63 @@ def inject_all(items, repo, outdir, contracts_dir=None):
 if __name__ == '__main__':
     import sys
     print(inject_all([dict(file=sys.argv[1], function=sys.argv[2], loop=int(sys.argv[3]), clauses='__CPROVER_loop_invariant(1)')], '/repo', '/tmp'))
+
+
+# --------------------------------------------------------------------------------------------------
+# region extraction: inline glue of giant functions, cut between two literal anchor lines
+def extract_region(it, repo, outdir):
+    """
+    it: dict(region=name, file=, begin=<substring of exactly one line>, end=<substring; first line after begin containing it,
+             must be unique in the file>, include_begin=False, include_end=False, proto='void region_x(...)',
+             prologue='', epilogue='', loops=[(ordinal, clauses)], expect_loops=n)
+    What extraction drops: everything outside the region; the identity of its free variables (they become the
+    parameters / locals declared by proto+prologue).  The region text itself is copied byte for byte.
+    """
+    path = os.path.join(repo, it['file'])
+    if not os.path.exists(path):
+        raise InjectError('%s does not exist' % it['file'])
+    lines = open(path, encoding='latin-1').read().split('\n')
+    b = [n for n, l in enumerate(lines) if it['begin'] in l]
+    if len(b) != 1:
+        raise InjectError('region %s: begin anchor matches %d lines' % (it['region'], len(b)))
+    e_all = [n for n, l in enumerate(lines) if it['end'] in l]
+    if len(e_all) != 1 or e_all[0] <= b[0]:
+        raise InjectError('region %s: end anchor matches %d lines (or precedes begin)' % (it['region'], len(e_all)))
+    lo = b[0] if it.get('include_begin') else b[0] + 1
+    hi = e_all[0] + 1 if it.get('include_end') else e_all[0]
+    text = '\n'.join(lines[lo:hi]) + '\n'
+    if 'max_lines' in it and hi - lo > it['max_lines']:
+        raise InjectError('region %s grew to %d lines (contract written for <= %d)' % (it['region'], hi - lo, it['max_lines']))
+    clean = _strip_comments_keep_len(text)
+    if clean.count('{') != clean.count('}'):
+        raise InjectError('region %s is not brace balanced' % it['region'])
+    loops = find_loops(clean, 0, len(clean))
+    if 'expect_loops' in it and len(loops) != it['expect_loops']:
+        raise InjectError('region %s has %d loops, contract written for %d' % (it['region'], len(loops), it['expect_loops']))
+    out = text
+    for ordinal, clauses in sorted(it.get('loops', []), key=lambda x: -loops[x[0]] if x[0] < len(loops) else 0):
+        if ordinal >= len(loops):
+            raise InjectError('region %s: loop %d wanted, %d present' % (it['region'], ordinal, len(loops)))
+        pos = loops[ordinal]
+        out = out[:pos] + '\n' + MARK_A + '\n' + clauses.strip() + '\n' + MARK_B + '\n' + out[pos:]
+    body = ('/* region %s of %s lines %d..%d, extracted mechanically on this run */\n' % (it['region'], it['file'], lo + 1, hi)
+            + it['proto'] + '\n{\n' + it.get('prologue', '') + '\n/*REGION-BEGIN*/\n' + out + '/*REGION-END*/\n' + it.get('epilogue', '') + '\n}\n')
+    dst = os.path.join(outdir, 'region_%s.c' % it['region'])
+    with open(dst, 'w', encoding='latin-1') as f:
+        f.write(body)
+    return dst, hashlib.sha256(text.encode('latin-1')).hexdigest()[:16], (lo + 1, hi)
+
+
+_inject_all_files = inject_all
+
+
+def inject_all(items, repo, outdir, contracts_dir=None):
+    mapping = {}
+    plain = [it for it in items if 'region' not in it]
+    if plain:
+        mapping.update(_inject_all_files(plain, repo, outdir, contracts_dir))
+    for it in items:
+        if 'region' in it:
+            dst, sha, span = extract_region(it, repo, outdir)
+            mapping['region:' + it['region']] = dst
+    return mapping
